@@ -142,6 +142,30 @@ def work(item):
                 want = sp.diff(a**2 * sp.diff(F, a), a) / a**2 + sp.diff(sp.sin(c) * sp.diff(F, c), c) / (a**2 * sp.sin(c)) + sp.diff(F, b, 2) / (a**2 * sp.sin(c)**2)
             decide(enc, q, f"div(grad f) = textbook Laplacian:{kind}", [got - want], domain(enc, kind, cs), out,
                    {"identity": "div(grad f) = Laplacian", "system": kind})
+        elif what in ("jac_div", "jac_curl"):
+            # components given directly in the curvilinear basis -- coordinate-free constants (ncomp = 0: "uniform" fields) or generic
+            # functions of the coordinates -- against the Cartesian operator of the same field: V(q) = sum_k F_k(q) e_k(q), Cartesian
+            # derivatives through the inverse Jacobian of the coordinate transformation (textbook map X(q))
+            enc = new_enc()
+            comps = [sp.Symbol(f"c{i}", real=True) for i in range(3)] if ncomp == 0 else [sp.Function(f"F{i}")(*qs) for i in range(3)]
+            vf = VectorField.from_vector(Vector(comps, cs))
+            B = local_basis(kind, qs)
+            V = [sum((comps[k] * B[k, j] for k in range(3)), sp.S.Zero) for j in range(3)]
+            X = sp.Matrix(transform(kind, qs))
+            Jinv = sp.simplify(X.jacobian(list(qs)).inv())           # d q_m / d x_i
+            dV = [[sum((sp.diff(V[j], qs[m]) * Jinv[m, i] for m in range(3)), sp.S.Zero) for i in range(3)] for j in range(3)]      # dV[j][i] = dV_j/dx_i
+            tagc = "constant components" if ncomp == 0 else "generic components"
+            if what == "jac_div":
+                got = divergence_operator(vf)
+                want = dV[0][0] + dV[1][1] + dV[2][2]
+                decide(enc, q, f"div = Cartesian div through the Jacobian:{kind}:{tagc}", [got - want], domain(enc, kind, cs), out,
+                       {"identity": "curvilinear div of components given in the local basis", "system": kind, "components": tagc})
+            else:
+                got = pad(curl_operator(vf).apply_to_basis().components)
+                ccurl = sp.Matrix([dV[2][1] - dV[1][2], dV[0][2] - dV[2][0], dV[1][0] - dV[0][1]])
+                want = list(B * ccurl)
+                decide(enc, q, f"curl = Cartesian curl through the Jacobian:{kind}:{tagc}", [a - b for a, b in zip(got, want)], domain(enc, kind, cs), out,
+                       {"identity": "curvilinear curl of components given in the local basis", "system": kind, "components": tagc})
         elif what == "div_curl":
             enc = new_enc()
             Fs = [sp.Function(f"F{i}")(*qs) for i in range(ncomp)]
@@ -237,6 +261,18 @@ try:
                 "CYLINDRICAL": lambda: sp.diff(a * sp.diff(fe, a), a) / a + sp.diff(fe, b, 2) / a**2 + sp.diff(fe, c, 2),
                 "SPHERICAL": lambda: sp.diff(a**2 * sp.diff(fe, a), a) / a**2 + sp.diff(sp.sin(c) * sp.diff(fe, c), c) / (a**2 * sp.sin(c)) + sp.diff(fe, b, 2) / (a**2 * sp.sin(c)**2)}}[kind]()
         print("div(grad f) =", got, " textbook Laplacian =", num(want)); bad = bad or abs(got - num(want)) > 1e-18
+    elif what in ("jac_div", "jac_curl"):
+        comps = [sp.Rational(3, 2), sp.Rational(-2, 3), sp.Rational(5, 4)] if ncomp == 0 else [rnd_poly(qs) for _ in range(3)]
+        vf = VectorField.from_vector(Vector(comps, cs))
+        V = [sum((comps[k] * B[k, j] for k in range(3)), sp.S.Zero) for j in range(3)]
+        Jinv = sp.Matrix(X).jacobian(list(qs)).inv()
+        dV = [[sum((sp.diff(V[j], qs[m]) * Jinv[m, i] for m in range(3)), sp.S.Zero) for i in range(3)] for j in range(3)]
+        if what == "jac_div":
+            got = num(divergence_operator(vf)); want = num(dV[0][0] + dV[1][1] + dV[2][2]); print("div", got, "Cartesian", want); bad = abs(got - want) > 1e-18
+        else:
+            got = [num(v) for v in pad(curl_operator(vf).apply_to_basis().components)]
+            want = [num(v) for v in (B * sp.Matrix([dV[2][1] - dV[1][2], dV[0][2] - dV[2][0], dV[1][0] - dV[0][1]]))]
+            print("curl", got, "Cartesian", want); bad = any(abs(a - b) > 1e-18 for a, b in zip(got, want))
     elif what == "div_curl":
         vf = VectorField.from_vector(Vector([rnd_poly(qs) for _ in range(ncomp)], cs))
         v = num(divergence_operator(curl_operator(vf))); print("div(curl F) =", v); bad = abs(v) > 1e-20
@@ -278,6 +314,9 @@ def run(ctx):
         items.append(("curl_grad", kind, 3, timeout))
         items.append(("agree_grad", kind, 3, timeout))
         items.append(("div_grad", kind, 3, timeout))
+        for nc in (0, 3):
+            items.append(("jac_div", kind, nc, timeout))
+            items.append(("jac_curl", kind, nc, timeout))
         for n in range(4):
             items.append(("div_curl", kind, n, timeout))
             items.append(("agree_div", kind, n, timeout))
